@@ -439,6 +439,13 @@ func (t *transitiveClosure) addElement(
 		if existingMode == inclusionModeImplicit && !impliedByCustomOption {
 			// upgrade from implied to explicitly part of closure
 			t.elements[descriptor] = inclusionModeExplicit
+			if field, ok := descriptor.(*descriptorpb.FieldDescriptorProto); ok && field.Extendee != nil {
+				// The extendee was added as implied by this extension, upgrade it as well.
+				extendeeName := protoreflect.FullName(strings.TrimPrefix(field.GetExtendee(), "."))
+				if extendeeInfo, ok := imageIndex.ByName[extendeeName]; ok {
+					return t.addElement(extendeeInfo.element, descriptorInfo.file.Path(), false, imageIndex, opts)
+				}
+			}
 		}
 		return nil // already added this element
 	}
